@@ -436,6 +436,87 @@ def run(replay=None):
             'Value.from_satoshi(%d) %s %s' % (a, {'add': '+', 'sub': '-', 'mul': '*'}[op],
                                               b if op == 'mul' else 'Value.from_satoshi(%d)' % b), ['arith', op, a, b])
 
+    CB_SCRIPT = bytes.fromhex('03f6591c046945e35e')
+
+    def observe_fee(route, coinbase, ins, outs):
+        """ins / outs: lists of (carrier type, whole amount).  Every way a Transaction comes to have a fee."""
+        vin = [make_typed(ty, w, 0, 1, False, Value) for ty, w in ins]
+        vout = [make_typed(ty, w, 0, 1, False, Value) for ty, w in outs]
+        if any(v is None for v in vin + vout):
+            return False
+        si, so = sum(w for _, w in ins), sum(w for _, w in outs)
+        got = {'refused': True, 'nofee': False, 'isint': False, 'neg': False, 'num': [], 'den': 0}
+
+        def mk_input(j, v):
+            if coinbase:
+                return Input(b'\0' * 32, 0xffffffff, unlocking_script=CB_SCRIPT, value=v, network='bitcoin')
+            return Input(bytes([j + 1]) * 32, j, value=v, network='bitcoin')
+
+        def mk_outputs():
+            return [Output(v, lock_script=b'\x51', network='bitcoin') for v in vout]
+        try:
+            reports = True
+            if route in ('ctor', 'ctor_update', 'calculate_fee'):
+                t = Transaction([mk_input(j, v) for j, v in enumerate(vin)], mk_outputs(), coinbase=coinbase,
+                                network='bitcoin')
+                if route == 'ctor_update':
+                    t.update_totals()
+                fee = t.fee
+                if route == 'calculate_fee':
+                    t.fee_per_kb = 1000 + (si % 50000)
+                    fee = t.calculate_fee()
+            elif route == 'totals_args':
+                t = Transaction(input_total=si, output_total=so, coinbase=coinbase, network='bitcoin')
+                fee = t.fee
+            elif route == 'fee_arg':
+                t = Transaction([mk_input(j, v) for j, v in enumerate(vin)], mk_outputs(), fee=si - so,
+                                coinbase=coinbase, network='bitcoin')
+                fee = t.fee
+            elif route in ('add_update', 'add_only'):
+                t = Transaction(coinbase=coinbase, network='bitcoin')
+                for j, v in enumerate(vin):
+                    if coinbase:
+                        t.add_input(b'\0' * 32, 0xffffffff, unlocking_script=CB_SCRIPT, value=v)
+                    else:
+                        t.add_input(bytes([j + 1]) * 32, j, value=v)
+                for v in vout:
+                    t.add_output(v, lock_script=b'\x51')
+                if route == 'add_update':
+                    t.update_totals()
+                else:
+                    reports = False
+                fee = t.fee
+            else:       # parse_update: a raw transaction carries no input values; they are filled in afterwards
+                t0 = Transaction([mk_input(j, w) for j, (_, w) in enumerate(ins)],
+                                 [Output(w, lock_script=b'\x51', network='bitcoin') for _, w in outs],
+                                 coinbase=coinbase, network='bitcoin', witness_type='legacy',
+                                 fee=max(si - so, 0))
+                t = Transaction.parse(t0.raw(), strict=False)
+                if t.fee is not None and not (isinstance(t.fee, int) and t.fee >= 0):
+                    raise common.MachineryError('parsed transaction reports fee %r' % (t.fee,))
+                for inp, (_, w) in zip(t.inputs, ins):
+                    inp.value = w          # (a plain attribute, no entry point: whole int amounts)
+                t.update_totals()
+                fee = t.fee
+            if fee is None:
+                got = {'refused': False, 'nofee': True, 'isint': False, 'neg': False, 'num': [], 'den': 0}
+            else:
+                isint, fexact = exact_of(fee)
+                got = dict(rat(fexact), refused=False, nofee=False, isint=isint)
+                got['num'] = digits(abs(fexact.numerator)) if fexact is not None and got['den'] else []
+        except common.MachineryError:
+            raise
+        except Exception:
+            pass
+        cl = 'pays' if si > so else 'equal' if si == so else 'short'
+        add({'k': 'fee', 'route': route, 'coinbase': coinbase, 'ins': [digits(w) for _, w in ins],
+             'outs': [digits(w) for _, w in outs], 'tys': sorted(set(ty.replace('Scaled', '') for ty, _ in ins + outs)),
+             'reports': reports, 'got': got},
+            ('fee', route, coinbase, cl, si == 0, tuple(sorted(set(ty for ty, _ in ins + outs)))),
+            '%s%s: inputs %r, outputs %r -> fee' % (route, ' (coinbase)' if coinbase else '', vin, vout),
+            ['fee', route, coinbase, [list(x) for x in ins], [list(x) for x in outs]])
+        return True
+
     den_by_name = {d[0]: d for d in DENS}
     if replay:
         redo = replay['case'].get('redo')
@@ -459,6 +540,8 @@ def run(replay=None):
             observe_vtyped(redo[1], redo[2], redo[3], redo[4], den_by_name[redo[5]], redo[6])
         elif redo[0] == 'arith':
             observe_arith(redo[1], redo[2], redo[3])
+        elif redo[0] == 'fee':
+            observe_fee(redo[1], redo[2], [tuple(x) for x in redo[3]], [tuple(x) for x in redo[4]])
         elif redo[0] == 'wallet':
             for rec, klass, desc, rd in common.pmap(_wallet_job, [(common.seed(), 1, [redo[1], redo[2]])], procs=1)[0]:
                 add(rec, klass, desc, rd)
@@ -651,6 +734,31 @@ def run(replay=None):
             observe_arith('mul', a, rng.choice([0, 1, 2, 3, 10, 21, 1000, rng.randrange(1, 10 ** 6)]))
         ck.notes['typed_amounts'] = ntyped
         phase('typed')
+        # ---------------- every way a Transaction object comes to have a fee, ordinary and coinbase
+        fee_types = ['int', 'int', 'int', 'str', 'Value', 'float', 'Decimal', 'Fraction', 'np.int64']
+        routes = ['ctor', 'ctor_update', 'totals_args', 'fee_arg', 'add_update', 'add_only', 'parse_update', 'calculate_fee']
+        nfee = 0
+        for route in routes:
+            for coinbase in (False, True):
+                for _ in range(120 if thorough else 22):
+                    nin = 1 if coinbase else rng.randrange(1, 4)
+                    nout = rng.randrange(1, 4)
+                    base = rng.choice([546, 10 ** 5, 625000000, 10 ** 8, rng.randrange(1, 10 ** rng.randrange(3, 15))])
+                    outs_w = [max(1, base // nout + rng.randrange(-3, 4)) for _ in range(nout)]
+                    so = sum(outs_w)
+                    shape = rng.randrange(7)
+                    # inputs: comfortably more, one unit more, equal, one unit short, far short, unknown (0)
+                    si = [so + rng.randrange(1, 10 ** 6), so + 1, so, so - 1, max(1, so // 2), so * 3, 0][shape]
+                    if si < 0 or (si == 0 and shape != 6):
+                        si = so + 1
+                    ins_w = [si // nin] * nin
+                    ins_w[0] += si - sum(ins_w)
+                    if si and min(ins_w) == 0:
+                        ins_w, nin = [si], 1
+                    tys = [rng.choice(fee_types) for _ in range(nin + nout)]
+                    nfee += observe_fee(route, coinbase, list(zip(tys[:nin], ins_w)), list(zip(tys[nin:], outs_w)))
+        ck.notes['fee_scenarios'] = nfee
+        phase('fee')
         # ---------------- wallet-created transactions paying a text amount
         for rec, klass, desc, redo in common.pmap(_wallet_job, [(common.seed(), 40 if thorough else 14, None)], procs=1)[0]:
             add(rec, klass, desc, redo)
@@ -677,7 +785,7 @@ def run(replay=None):
         ck.sample({'case': d, 'record_kind': r['k']}, limit=8)
     ck.notes['skipped_not_judged'] = skipped
     ck.notes['records_by_kind'] = {k: sum(1 for r in recs if r[0]['k'] == k) for k in
-                                   ('parse', 'format', 'rt', 'ident', 'place', 'typed', 'arith', 'wallet')}
+                                   ('parse', 'format', 'rt', 'ident', 'place', 'typed', 'arith', 'fee', 'wallet')}
     return ck.finish()
 
 
